@@ -15,13 +15,13 @@ def _runs(tier):
     if tier == "quick":
         return [
             {"harness": "c14_rej", "args": [], "budget": 240, "jobs": 4},
-            {"harness": "c14_oom", "args": ["--modes", "alloc,abandon", "--max-allocs", "1000"], "budget": 260, "jobs": 12},
+            {"harness": "c14_oom", "args": ["--modes", "alloc,abandon", "--max-allocs", "1500"], "budget": 260, "jobs": 12},
             {"harness": "c14_i8", "args": ["--modes", "overflow"], "budget": 240, "jobs": 4},
         ]
     return [
         {"harness": "c14_rej", "args": [], "budget": 600, "jobs": 4},
-        {"harness": "c14_oom", "args": ["--modes", "alloc,abandon"], "budget": 2400, "jobs": 16},
-        {"harness": "c14_oom", "args": ["--modes", "alloc", "--mag", "1000000007000000000000000000000000000009"], "budget": 2400, "jobs": 16},
+        {"harness": "c14_oom", "args": ["--modes", "alloc,abandon", "--max-dry-ms", "250"], "budget": 2400, "jobs": 16},
+        {"harness": "c14_oom", "args": ["--modes", "alloc", "--mag", "1000000007000000000000000000000000000009", "--max-dry-ms", "250"], "budget": 2400, "jobs": 16},
         {"harness": "c14_i8", "args": ["--modes", "overflow,alloc"], "budget": 900, "jobs": 16},
     ]
 
